@@ -430,6 +430,10 @@ def composite_order(idx, rb: FuncInfo, val: ast.AST, side: str, depth: int = 0) 
         if f'self.col{side}' in src or (rb.node.args.args and any(a.arg in src for a in rb.node.args.args[1:])):
             if isinstance(comp.elt, ast.Subscript) and norm(comp.elt.slice) == norm(g.target):
                 return 'ok', ''
+            # ... or of the name tidied up on the spot (`table[name.strip('() ')]`): a per-element function of the loop variable alone
+            if isinstance(comp.elt, ast.Subscript) and isinstance(g.target, ast.Name) and {x.id for x in ast.walk(comp.elt.slice) if isinstance(x, ast.Name)} == {g.target.id} \
+                    and isinstance(comp.elt.slice, ast.Call) and isinstance(comp.elt.slice.func, ast.Attribute) and norm(comp.elt.slice.func.value) == g.target.id:
+                return 'ok', ''
             return 'unknown', f'element `{norm(comp.elt)}` is not a lookup of the name in the table'
         return 'unknown', f'iterates `{src[:50]}`'
     if isinstance(val, ast.Call) and isinstance(val.func, ast.Attribute) and norm(val.func.value) == 'self' and depth < 2:
